@@ -284,6 +284,9 @@ type tokenScanner struct {
 func NewTokenScanner(src io.Reader) *tokenScanner {
 	ts := &tokenScanner{}
 	ts.s.Init(src)
+	// vertical tab and form feed separate tokens like blanks, tabs and line
+	// breaks do (SQL white space; any isspace() based scanner agrees)
+	ts.s.Whitespace |= 1<<'\v' | 1<<'\f'
 	ts.s.Error = func(s *Scanner, msg string) {
 		if msg == "comment not terminated" {
 			ts.openComment = true
